@@ -6,8 +6,8 @@ CONSTANTS
   ReadLens = {10}
   FlankIds = {1, 2, 4}
   FlankPairs = "diag"
-  MMBases = {"A", "C", "G", "T"}
-  XBases = {"A", "G"}
+  MMBases = {"A", "T"}
+  XBases = {"A"}
   Protos = {"nla", "chic"}
   Variant = "design"
 INVARIANT Inv_C09_NlaTruth
